@@ -933,7 +933,7 @@ func cfgValidScalars(cfg *ResponseConfig) bool {
 //@ shared_types asset, RepData, repEncData, initEncData, assetMgr, Server, ServerConfig, Segment
 //@ startup_funcs SetupServer, newAssetMgr, discoverAssets, loadAsset, loadRep, loadFromJSON, writeToJSON, addRegExpAndInit, consolidateAsset, setReferenceRep, addEncryption, readMP4Segment, readInit, addAsset, compileTemplates, addMPDData, NewCmafIngesterMgr, Start, createLimiter, NewIPRequestLimiter, Run, main
 
-//@ guarded_by cmafIngesterMgr.noLockExists: ingesters, cancels, state
+//@ guarded_by cmafIngesterMgr.mu: ingesters, cancels, state
 
 // ---------------------------------------------------------------------------
 // C01/C13 wiring of genLiveSegment (abstract: the mp4ff object graph is opaque; only the
